@@ -13,9 +13,9 @@ def run(ctx):
     tl2gen = gen.tool(ctx, "tl2gen")
     tlgen = gen.tool(ctx, "tlgen")
     r = core.stream(ctx.seed, "c24")
-    n = 390 if thorough else 52
+    n = 480 if thorough else 64
     kinds = ["explicit-explicit", "implicit-explicit", "function-constructor", "explicit-zero", "implicit-zero", "tl2-magic-vs-tl1", "tl2-magic-zero", "tl2-magic-twice",
-             "bool-bool", "bool-zero", "wrapper-constructor", "wrapper-wrapper", "wrapper-tl2-magic"]
+             "bool-bool", "bool-zero", "wrapper-constructor", "wrapper-wrapper", "wrapper-tl2-magic", "tl2-type-magic-zero", "tl2-type-magic-vs-tl1", "tl2-type-magic-twice"]
     stats = {}
 
     def lint(which, files):
@@ -107,6 +107,21 @@ def run(ctx):
         elif kind == "wrapper-tl2-magic":
             tagtext = "b5286e24"
             files = {"s.tl": base, "t.tl2": "zq.fn#b5286e24 x:int32 => int32;\n"}
+        elif kind == "tl2-type-magic-zero":
+            tagtext = "magic should not be 0|tag 0|#00000000"
+            shape = r.pick(["zq.st#00000000 = x:int32 y:string;\n", "zq.un#00000000 = | a x:int32 | b;\n", "zq.al#00000000 <=> []int32;\n", "zq.ge#00000000<t:Type> = v:t;\n", "st#00000000 = x:int32;\n"])
+            files = {"s.tl": base, "t.tl2": shape}
+        elif kind == "tl2-type-magic-vs-tl1":
+            explicit = [(dcl, c) for dcl, c in ctors if c.explicit]
+            if not explicit:
+                continue
+            (d1, c1) = r.pick(explicit)
+            tagtext = "%08x" % c1.tag
+            files = {"s.tl": base, "t.tl2": "zq.st#%08x = x:int32;\n" % c1.tag}
+        elif kind == "tl2-type-magic-twice":
+            t = (r.next() & 0xffffffff) | 1
+            tagtext = "%08x" % t
+            files = {"s.tl": base, "t.tl2": "zq.st#%08x = x:int32;\nzq.other#%08x = y:string;\n" % (t, t)}
         elif kind == "tl2-magic-zero":
             tagtext = "magic should not be 0|tag 0|#00000000"
             files = {"s.tl": base, "t.tl2": "zq.fn#00000000 x:int32 => int32;\n"}
